@@ -239,6 +239,10 @@ Fixpoint walk_asc (tid : N) (rb : list block) : list (list N) :=
                                 end
   end.
 
+Lemma walk_asc_cons tid b b' p :
+  walk_asc tid (b :: b' :: p) = piece b tid :: (if (b_max b' =? tid)%N then walk_asc tid (b' :: p) else []).
+Proof. reflexivity. Qed.
+
 Lemma firstn_S_rev (bs : list block) bi : bi < length bs ->
   rev (firstn (S bi) bs) = nth bi bs b0 :: rev (firstn bi bs).
 Proof.
@@ -274,13 +278,12 @@ Proof.
     destruct (narrow_asc_spec lo hi (piece b tid) (has_prev (table_of bs) 0 tid) Hs Hp) as (t' & E & Ht).
     rewrite E. cbn [has_prev] in Ht. destruct Ht as [->|[-> _]]; reflexivity.
   - set (b := nth (S p) bs b0) in *.
-    rewrite firstn_S_rev in Hs, Hne |- * by lia.
+    assert (Er : rev (firstn (S p) bs) = nth p bs b0 :: rev (firstn p bs)) by (apply firstn_S_rev; lia).
     set (b' := nth p bs b0) in *.
     assert (Hn : has_prev (table_of bs) (S p) tid = (b_max b' =? tid)%N).
     { unfold has_prev, table_of. simpl. rewrite nth_max. reflexivity. }
-    cbn [walk_asc] in Hs, Hne |- *.
+    rewrite Er in Hs, Hne |- *. rewrite walk_asc_cons in Hs, Hne |- *. rewrite <- Er in Hs, Hne |- *.
     pose proof (Forall_inv Hne) as Hp; pose proof (Forall_inv_tail Hne) as Hne'.
-    rewrite <- firstn_S_rev in Hs, Hne' |- * by lia.
     destruct (N.eqb_spec (b_max b') tid) as [Eb|Eb].
     + cbn [rev concat] in Hs |- *. rewrite concat_app in Hs |- *. cbn [concat] in Hs |- *. rewrite app_nil_r in Hs |- *.
       destruct (narrow_asc_spec lo hi (piece b tid) (has_prev (table_of bs) (S p) tid)
@@ -291,7 +294,7 @@ Proof.
         pose proof (bok_le b' H). unfold inb. apply andb_true_iff. split; apply N.leb_le; lia. }
       destruct Ht as [->|[-> Hlo]].
       * rewrite (IH fuel); auto; try lia. apply (sorted_app_l _ _ Hs).
-      * rewrite (filter_none _ (concat (rev (walk_asc tid (rev (firstn (S p) bs)))))); [reflexivity|].
+      * rewrite (filter_none _ (concat (rev (walk_asc tid (rev (firstn (S p) bs)))))); [cbn [rev]; rewrite app_nil_r; reflexivity|].
         intros y Hy.
         assert (Hh : In (hd 0%N (piece b tid)) (piece b tid)) by (destruct (piece b tid); [congruence|left; auto]).
         pose proof (sorted_app_lt _ _ Hs y _ Hy Hh).
